@@ -238,6 +238,11 @@ pub fn canon_pair(fam: &str, kmax: i64, rng: &mut Rng) -> (Vec<(Vec<P>, Vec<Vec<
         let (x, y) = gen::tfan_pair(rng);
         return if rng.chance(1, 2) { (x, y) } else { (y, x) };
     }
+    if fam == "pinch" {
+        let mut v = gen::pinch_set(rng, 2);
+        let y = v.pop().unwrap();
+        return (v.pop().unwrap(), y);
+    }
     if fam == "fan" {
         let (x, y) = gen::fan_pair(rng);
         return if rng.chance(1, 2) { (x, y) } else { (y, x) };
@@ -280,6 +285,12 @@ pub fn canon_triple(fam: &str, kmax: i64, rng: &mut Rng) -> [Vec<(Vec<P>, Vec<Ve
         let (a, b) = gen::latraw_pair(rng);
         let (c, _) = gen::latraw_pair(rng);
         return [a, b, c];
+    }
+    if fam == "pinch" {
+        let mut v = gen::pinch_set(rng, 3);
+        let c = v.pop().unwrap();
+        let b = v.pop().unwrap();
+        return [v.pop().unwrap(), b, c];
     }
     let fam = if fam == "lat" { "aff-cx" } else { fam };
     let f = gen::family(fam, kmax, rng);
